@@ -91,6 +91,15 @@ def parse_rule(val):
 class Clause:
     def __init__(self, kind, label, expr):
         self.kind = kind      # requires | ensures | assigns
+        # an ensures clause whose label list contains 'light' is kept when a caller uses the abstracted
+        # contract `callee/light` (a weaker postcondition than the one proved: sound for the caller)
+        self.light = False
+        if label:
+            parts = [l.strip() for l in label.split(',')]
+            if 'light' in parts:
+                self.light = True
+                parts = [l for l in parts if l != 'light']
+                label = ','.join(parts) or None
         self.label = label
         self.expr = ' '.join(expr.split())
 
